@@ -15,9 +15,9 @@ import (
 func init() {
 	register(&CheckSpec{
 		ID: "C20", Fn: c20, Resume: true, Level: "fault_enumeration",
-		Rule:        "round trip: a book built with the cache on and a new Book loading that cache are compared entry by entry (keys, counters, successor lists as sequences); crash points: for cache files of books of several sizes EVERY prefix length 0..len-1 (every byte for files up to 16 KB, every byte of the first and last 4 KB plus a stride in between for larger ones) is installed as the cache and Initialize(useCache=true, recreate=false) is run under a watchdog; corruptions: bit flips, overwritten ranges, zero fill, appended garbage, each first classified by decoding the same bytes with encoding/gob in the harness (only undecodable variants must yield the source book; decodable ones must merely not crash or hang); repeated initialisation in the same process after a failed load, and re-initialisation (recreateCache) of a Book object that was served from the cache; a hang is a violation only if the in-process goroutine dump proves a deadlock; after a proven hang the process is restarted after that case; distinct = distinct (book, fault) cases",
+		Rule:        "round trip: a book built with the cache on and a new Book loading that cache are compared entry by entry (keys, counters, successor lists as sequences); crash points: for cache files of books of several sizes EVERY prefix length 0..len-1 (every byte for files up to 16 KB, every byte of the first and last 4 KB plus a stride in between for larger ones) is installed as the cache and Initialize(useCache=true, recreate=false) is run under a watchdog; the cache path being a directory or a dangling symlink (undecodable and not rewritable); corruptions: bit flips, overwritten ranges, zero fill, appended garbage, each first classified by decoding the same bytes with encoding/gob in the harness (only undecodable variants must yield the source book; decodable ones must merely not crash or hang); repeated initialisation in the same process after a failed load, and re-initialisation (recreateCache) of a Book object that was served from the cache; a hang is a violation only if the in-process goroutine dump proves a deadlock; after a proven hang the process is restarted after that case; distinct = distinct (book, fault) cases",
 		Assumptions: []string{"the source-built book of the same file is the reference (its correctness is C19's subject)", "successor order of a rebuilt book may differ (parallel build): compared as sets there, as sequences for the cache round trip"},
-		Required:    []string{"books", "roundtrips", "crash_points", "crash_points_first_4k", "corruptions_undecodable", "corruptions_decodable", "repeated_init_after_failed_load", "missing_cache", "empty_cache", "reinit_after_cache_load"},
+		Required:    []string{"books", "roundtrips", "crash_points", "crash_points_first_4k", "corruptions_undecodable", "corruptions_decodable", "repeated_init_after_failed_load", "missing_cache", "empty_cache", "reinit_after_cache_load", "unusable_cache_path"},
 		MinEvals:    1000,
 		TimeoutQ:    20 * 60e9,
 	})
@@ -254,6 +254,35 @@ func c20(c *Ctx) {
 					rep.Inc("empty_cache")
 				}
 			}
+		}
+		// --- the cache path in a state that can neither be decoded nor rewritten
+		for _, kind := range []string{"path-is-directory", "dangling-symlink"} {
+			caseIdx++
+			if !c.Mine(caseIdx) || !c.Case(caseIdx, fmt.Sprintf("book %d: cache %s", bi, kind)) {
+				continue
+			}
+			_ = os.RemoveAll(cachePath)
+			var perr error
+			if kind == "path-is-directory" {
+				perr = os.Mkdir(cachePath, 0o755)
+			} else {
+				perr = os.Symlink(filepath.Join(dir, "no-such-dir", "x.cache"), cachePath)
+			}
+			if perr != nil {
+				rep.Inconclusive("cannot prepare cache path: " + perr.Error())
+				continue
+			}
+			b := openingbook.NewBook()
+			err, pm, hung, sig, to := initWithWatchdog(b, dir, file, 15*time.Second)
+			rep.Eval(1)
+			rep.Inc("unusable_cache_path")
+			rep.DistinctStr(fmt.Sprintf("%d/%s", bi, kind))
+			if c20outcome(rep, kind, bi, 0, err, pm, hung, sig, to) {
+				if d := refSnap.equal(snapBook(b, want), true); d != "" {
+					rep.Viol("cache:"+kind+":book-differs", "with an unusable cache path the book differs from the source-built book: "+d, map[string]interface{}{"book": bi, "kind": kind})
+				}
+			}
+			_ = os.RemoveAll(cachePath)
 		}
 		// --- corruptions
 		nCorr := c.Size(60, 2500)
